@@ -80,6 +80,12 @@ func main() {
 		os.Exit(code)
 	case "c20child":
 		os.Exit(dsim.ChildMain())
+	case "racearm":
+		os.Exit(cmdRaceArm(os.Args[2:]))
+	case "racearm-worker":
+		os.Exit(cmdRaceArmWorker(os.Args[2:]))
+	case "racearm-replay":
+		os.Exit(cmdRaceArmReplay(os.Args[2]))
 	case "replay":
 		os.Exit(cmdReplay(os.Args[2]))
 	case "selftest":
@@ -406,6 +412,10 @@ func cmdCheck(prop, tier string) int {
 	if nViol > 0 {
 		return 1
 	}
+	if len(total.NonTrivial) < 2 {
+		fmt.Fprintln(os.Stderr, "check: fewer than 2 distinct non-trivial cases in this batch (budget too small?): the evidence would say nothing, exit 2")
+		return 2
+	}
 	if unreplayable > 0 {
 		fmt.Fprintln(os.Stderr, "check: violations found that do not replay: machinery defect")
 		return 2
@@ -431,4 +441,148 @@ func keysOf(m map[string]bool) []string {
 	}
 	sort.Strings(out)
 	return out
+}
+
+
+// ---------------------------------------------------------------------------------------------
+// Auxiliary -race arm of C09 (thorough tier; this code only makes sense in a binary built with -race)
+
+func cmdRaceArmWorker(a []string) int {
+	seed, _ := strconv.ParseUint(a[0], 10, 64)
+	shard, _ := strconv.Atoi(a[1])
+	nshards, _ := strconv.Atoi(a[2])
+	n, _ := strconv.Atoi(a[3])
+	return checks.RaceArmWorker(seed, shard, nshards, n)
+}
+
+func cmdRaceArm(a []string) int {
+	n := 2000
+	if len(a) > 0 {
+		n, _ = strconv.Atoi(a[0])
+	}
+	start := time.Now()
+	vd := verifDir()
+	seed := seedFromEnv()
+	exe, _ := os.Executable()
+	nw := runtime.NumCPU() / 2
+	if nw < 1 {
+		nw = 1
+	}
+	type outcome struct {
+		code   int
+		stderr string
+	}
+	outs := make([]outcome, nw)
+	var wg sync.WaitGroup
+	for w := 0; w < nw; w++ {
+		wg.Add(1)
+		go func(w int) {
+			defer wg.Done()
+			cmd := exec.Command(exe, "racearm-worker", strconv.FormatUint(seed, 10), strconv.Itoa(w), strconv.Itoa(nw), strconv.Itoa(n))
+			cmd.Env = append(os.Environ(), "GORACE=halt_on_error=1 exitcode=66", "GOMAXPROCS=4")
+			b, err := cmd.CombinedOutput()
+			code := 0
+			if ee, ok := err.(*exec.ExitError); ok {
+				code = ee.ExitCode()
+			} else if err != nil {
+				code = 2
+			}
+			outs[w] = outcome{code, string(b)}
+		}(w)
+	}
+	wg.Wait()
+	viol := 0
+	for w, o := range outs {
+		if o.code == 0 {
+			continue
+		}
+		isRace := o.code == 66 || strings.Contains(o.stderr, "WARNING: DATA RACE") || strings.Contains(o.stderr, "fatal error: concurrent map")
+		if !isRace {
+			fmt.Fprintf(os.Stderr, "racearm: worker %d failed (exit %d): %s\n", w, o.code, tailOf(o.stderr, 600))
+			return 2
+		}
+		idx := -1
+		for _, l := range strings.Split(o.stderr, "\n") {
+			if strings.HasPrefix(l, "RACEARM-BEGIN ") {
+				idx, _ = strconv.Atoi(strings.TrimPrefix(l, "RACEARM-BEGIN "))
+			}
+		}
+		if idx < 0 {
+			return 2
+		}
+		var sc map[string]interface{}
+		_ = json.Unmarshal(checks.RaceArmScenarioJSON(seed, idx), &sc)
+		rep := o.stderr
+		if i := strings.Index(rep, "WARNING: DATA RACE"); i >= 0 {
+			rep = rep[i:]
+		}
+		sc["violation"] = map[string]interface{}{"oracle": "C09.data-race", "property": "C09", "message": "the Go race detector reported a data race (or the runtime a concurrent map access) while goroutines created and executed instances of one library", "log_tail": strings.Split(tailOf(rep, 6000), "\n")}
+		b, _ := json.MarshalIndent(sc, "", " ")
+		dir := filepath.Join(vd, "replays", "C09")
+		_ = os.MkdirAll(dir, 0o755)
+		path := filepath.Join(dir, fmt.Sprintf("race-%d-%d.json", seed, idx))
+		_ = os.WriteFile(path, b, 0o644)
+		fmt.Printf("-- C09.data-race: race detector report while running scenario %d on real goroutines\n", idx)
+		fmt.Printf("VIOLATION property=C09 replay=%s\n", path)
+		viol++
+	}
+	// record the arm in the evidence file written by the simulation check
+	evp := filepath.Join(vd, "evidence", "C09.json")
+	if b, err := os.ReadFile(evp); err == nil {
+		var ev map[string]interface{}
+		if json.Unmarshal(b, &ev) == nil {
+			if cov, ok := ev["coverage"].(map[string]interface{}); ok {
+				cov["auxiliary_race_arm"] = map[string]interface{}{"what": "NOT simulation: the same task scripts on real goroutines in a -race binary; only race-detector reports or concurrent-map fatals count", "scenarios": n, "repeats_per_scenario": 3, "worker_processes": nw, "gomaxprocs": 4, "race_reports": viol, "wall_s": time.Since(start).Seconds()}
+				if viol > 0 {
+					if v, ok := ev["violations"].(float64); ok {
+						ev["violations"] = int(v) + viol
+					}
+				}
+				if nb, err := json.MarshalIndent(ev, "", " "); err == nil {
+					_ = os.WriteFile(evp, nb, 0o644)
+				}
+			}
+		}
+	}
+	fmt.Printf("race arm: scenarios=%d reports=%d wall=%.1fs\n", n, viol, time.Since(start).Seconds())
+	if viol > 0 {
+		return 1
+	}
+	return 0
+}
+
+func cmdRaceArmReplay(path string) int {
+	sc, err := core.ReadReplay(path)
+	if err != nil {
+		return 2
+	}
+	if os.Getenv("GORACE") == "" {
+		// re-exec with the race detector told to stop at the first report
+		exe, _ := os.Executable()
+		cmd := exec.Command(exe, "racearm-replay", path)
+		cmd.Env = append(os.Environ(), "GORACE=halt_on_error=1 exitcode=66", "GOMAXPROCS=4")
+		b, err := cmd.CombinedOutput()
+		if ee, ok := err.(*exec.ExitError); ok && (ee.ExitCode() == 66 || strings.Contains(string(b), "fatal error: concurrent map")) {
+			fmt.Println(tailOf(string(b), 3000))
+			fmt.Printf("VIOLATION property=C09 replay=%s\n", path)
+			return 1
+		}
+		if err != nil {
+			fmt.Println(tailOf(string(b), 1000))
+			return 2
+		}
+		fmt.Println("REPLAY-CLEAN property=C09 (race arm: no report in 200 repetitions)")
+		return 0
+	}
+	if err := checks.RaceScenario(sc, 200); err != nil {
+		return 2
+	}
+	return 0
+}
+
+func tailOf(s string, n int) string {
+	if len(s) > n {
+		return s[len(s)-n:]
+	}
+	return s
 }
